@@ -398,7 +398,7 @@ class Logbook(list):
 
     def __delitem__(self, key):
         if isinstance(key, slice):
-            for i, in range(*key.indices(len(self))):
+            for i in sorted(range(*key.indices(len(self))), reverse=True):
                 self.pop(i)
                 for chapter in self.chapters.values():
                     chapter.pop(i)
